@@ -19,17 +19,18 @@ def read_any(env: simenv.SimEnv, path: str, with_doc: bool = True) -> Dict[str, 
         return out
     with env.real_open(path, "rb") as fh:
         raw = fh.read()
-    out["size"] = len(raw)
-    out["sha"] = hashlib.sha256(raw).hexdigest()[:16]
     out["is_gzip"] = raw[:2] == b"\x1f\x8b"
     data = raw
     if out["is_gzip"]:
+        # (a gzip header carries the wall-clock time of writing: never log raw gzip bytes)
         try:
             data = gzip.decompress(raw)
         except Exception as exc:  # noqa: BLE001
             out["valid"] = False
             out["error"] = type(exc).__name__
             return out
+    out["size"] = len(data)
+    out["sha"] = hashlib.sha256(data).hexdigest()[:16]
     try:
         doc = json.loads(data)
         out["valid"] = isinstance(doc, dict)
